@@ -258,11 +258,26 @@ theorem parse_if_range_header_eq (pd : List Char → Option Int) (value : Option
           | none => rfl
           | some p => obtain ⟨e, w⟩ := p; rfl
 
+/-- `parse_if_range_header(value)`, as translated from the current source, builds exactly the `IfRange`
+of the model's `parseIfRangeHeader` (the entry point `isResourceModified` uses; it consults
+`parse_date(value)` only for a value that is not spelled like an entity tag), for every `parse_date`
+and every value including `None`. -/
+theorem parse_if_range_header_eq_model (pd : List Char → Option Int) (value : Option (List Char)) :
+    Gen.PyFns_Range.parse_if_range_header pd value
+      = ifRangeOf (Cond.parseIfRangeHeader value (value.bind pd)) := by
+  rw [parse_if_range_header_eq]
+  unfold Cond.parseIfRangeHeader
+  cases value with
+  | none => rfl
+  | some v =>
+    simp only [Option.map_some, Option.getD_some, Option.bind_some, looksLikeEtag_eq]
+
 /-- The restriction above is needed: handing the model the raw `parse_date(value)` (as the harness
 does for its `cond` / `resp` commands) disagrees with the code as soon as `parse_date` accepts a
 quoted text - CPython's does, e.g. `"Wed, 21 Oct 2015 07:28:00 GMT"` with the quotes. Witness with an
 abstract date parser that accepts everything: the code reads `"x"` as the entity tag `x`, the model
-as a date. (Model/code difference of C11's hand model, reported; the code is right.) -/
+as a date. (This was a model/code difference of C11's hand model - the code is right; `isResourceModified` now
+goes through `parseIfRangeHeader`, see `parse_if_range_header_eq_model`.) -/
 theorem parse_if_range_model_needs_unquoted_date :
     Gen.PyFns_Range.parse_if_range_header (fun _ => some 0) (some ['"', 'x', '"'])
       ≠ ifRangeOf (Cond.parseIfRange (some ['"', 'x', '"']) (some 0)) := by decide
